@@ -572,8 +572,10 @@ def default_inline(fi: FunctionInfo, depth: int) -> bool:
     nstmt = 0
     nif = 0
     for n in ast.walk(fi.node):
-        if isinstance(n, (ast.For, ast.While, ast.With, ast.Yield, ast.YieldFrom)):
+        if isinstance(n, (ast.For, ast.While, ast.Yield, ast.YieldFrom)):
             return False
+        if isinstance(n, ast.With) and any(i.optional_vars is not None for i in n.items):
+            return False   # `with cm:` without a target only brackets its body (error translation, ...)
         if isinstance(n, ast.Try):
             # a try whose handlers only wrap-and-re-raise does not change the value that flows through
             if n.finalbody or n.orelse or not all(len(h.body) == 1 and isinstance(h.body[0], ast.Raise) for h in n.handlers):
@@ -600,7 +602,7 @@ def helper_inline(modules: Tuple[str, ...] = (), exclude: Tuple[str, ...] = (), 
         for x in ast.walk(fi.node):
             if isinstance(x, (ast.With, ast.Yield, ast.YieldFrom, ast.While)):
                 return False
-            if isinstance(x, ast.Try) and (x.finalbody or x.orelse or not all(len(h.body) == 1 and isinstance(h.body[0], ast.Raise) for h in x.handlers)):
+            if isinstance(x, ast.Try) and (x.finalbody or x.orelse or not all(len(h.body) == 1 and isinstance(h.body[0], (ast.Raise, ast.Return)) for h in x.handlers)):
                 return False
             if isinstance(x, ast.stmt):
                 n += 1
@@ -1043,10 +1045,19 @@ class Evaluator:
             return [st]
         raise AnalysisError('TERMS', f'statement {type(s).__name__} at {mod.relpath}:{s.lineno} not modelled')
 
+    def _as_tuple(self, v: Term, st: _State, depth: int) -> Term:
+        """an instance of a typing.NamedTuple class seen as the tuple of its fields (unpacking, indexing)"""
+        if isinstance(v, New):
+            ci = self.m.classes.get(v.cls)
+            if ci is not None and any(b.split('.')[-1] == 'NamedTuple' for c in ci.mro() for b in c.external_bases):
+                return TupleT(tuple(self.attr(v, k, st, depth) for k, _ in v.fields))
+        return v
+
     def assign(self, target: ast.expr, v: Term, st: _State, mod, fi, depth):
         if isinstance(target, ast.Name):
             st.env[target.id] = v
         elif isinstance(target, (ast.Tuple, ast.List)):
+            v = self._as_tuple(v, st, depth)
             stars = [i for i, e in enumerate(target.elts) if isinstance(e, ast.Starred)]
             if len(stars) == 1:
                 # a, *rest, z = v : positions before the star count from the left, those after it from the right
@@ -1349,6 +1360,8 @@ class Evaluator:
                 )
             else:
                 idx = self.expr(e.slice, st, mod, fi, depth)
+            if isinstance(base, New) and not store:
+                base = self._as_tuple(base, st, depth)
             if isinstance(base, TupleT) and isinstance(idx, Const) and isinstance(idx.value, int) and not store:
                 if -len(base.items) <= idx.value < len(base.items):
                     return base.items[idx.value]
@@ -1428,9 +1441,10 @@ class Evaluator:
             lit = self.expr(e.generators[0].iter, st, mod, fi, depth)
             if isinstance(lit, GlobalVal):
                 lit = lit.value
-            if isinstance(lit, TupleT) and lit.kind in ('tuple', 'list') and 0 < len(lit.items) <= 16 and not any(isinstance(x, Op) and x.op == '*' for x in lit.items):
+            items_ = self.literal_items(lit)
+            if items_ is not None and 0 < len(items_) <= 40:
                 pairs: List[Tuple[Term, Term]] = []
-                for item in lit.items:
+                for item in items_:
                     sub = st.fork()
                     self.assign(e.generators[0].target, item, sub, mod, fi, depth)
                     k, v = self.expr(e.key, sub, mod, fi, depth), self.expr(e.value, sub, mod, fi, depth)
@@ -1524,9 +1538,28 @@ class Evaluator:
                 return Const(r if op == 'in' else not r)
         return Op(op, (a, b))
 
+    def literal_items(self, lit: Term) -> Optional[Tuple[Term, ...]]:
+        """the elements of an iterable whose elements are known: a tuple / list literal, an Enum class (its members in
+        definition order), Enum.__members__.values()"""
+        if isinstance(lit, GlobalVal):
+            lit = lit.value
+        if isinstance(lit, TupleT) and lit.kind in ('tuple', 'list') and not any(isinstance(x, Op) and x.op == '*' for x in lit.items):
+            return lit.items
+        cref = None
+        if isinstance(lit, ClassRef):
+            cref = lit
+        elif isinstance(lit, Call) and isinstance(lit.func, Attr) and lit.func.name == 'values' and isinstance(lit.func.base, Attr) and lit.func.base.name == '__members__' \
+                and isinstance(lit.func.base.base, ClassRef) and not lit.args:
+            cref = lit.func.base.base
+        if cref is not None:
+            ci = self.m.classes.get(cref.name)
+            if ci is not None and ci.is_enum and ci.enum_members and len(ci.enum_members) <= 40:
+                return tuple(EnumMember(ci.name, n) for n in ci.enum_members)
+        return None
+
     def dict_lookup(self, d: DictT, key: Term, default: Term) -> Optional[Term]:
         """a constant table looked up with a key that is not constant: the same as an if-chain over its keys"""
-        if not d.items or len(d.items) > 12 or not all(isinstance(k, (Const, EnumMember)) for k, _ in d.items):
+        if not d.items or len(d.items) > 40 or not all(isinstance(k, (Const, EnumMember)) for k, _ in d.items):
             return None
         if isinstance(key, (Const, EnumMember)):
             for k, v in d.items:
@@ -1589,6 +1622,10 @@ class Evaluator:
             else:
                 out = [x for x in xs if x not in ys] + [y for y in ys if y not in xs]
             return TupleT(tuple(out), 'set')
+        if op == '*' and isinstance(sa_, TupleT) and sa_.kind in ('tuple', 'list') and isinstance(sb_, Const) and type(sb_.value) is int and 0 <= sb_.value <= 16:
+            return TupleT(sa_.items * sb_.value, sa_.kind)    # (x,) * 4
+        if op == '*' and isinstance(sb_, TupleT) and sb_.kind in ('tuple', 'list') and isinstance(sa_, Const) and type(sa_.value) is int and 0 <= sa_.value <= 16:
+            return TupleT(sb_.items * sa_.value, sb_.kind)
         if isinstance(a, Const) and isinstance(b, Const):
             try:
                 x, y = a.value, b.value
@@ -1872,6 +1909,11 @@ class Evaluator:
                 return self.ext_call(func, args, kwargs)
             finally:
                 self._cur_state, self._cur_depth = prev
+        if isinstance(func, New) and not star:
+            # an instance of a record class with __call__ (a validator object, a strategy object)
+            bm = self.attr(func, '__call__', st, depth)
+            if isinstance(bm, BoundMethod):
+                return self.apply(bm, args, kwargs, st, depth)
         if isinstance(func, Lam) and not star:
             self.resolved_calls += 1
             if func.closure is not None:
